@@ -1405,7 +1405,15 @@ func c16Gen(r *rand.Rand, tier string) []Case {
 		for j := 0; j < k; j++ {
 			var docs [][]scItem
 			tags := []string{}
-			switch r.Intn(4) {
+			var mode sx.S = "ok"
+			switch r.Intn(5) {
+			case 4: // one load whose definitions lie in several files (ParseFS: read in any order)
+				docs = [][]scItem{scShuffle(r, w)}
+				if r.Intn(2) == 0 {
+					docs = [][]scItem{scShuffle(r, scSplit(r, w))}
+				}
+				mode = sx.L("files", sx.A(r.Intn(100000)))
+				tags = append(tags, "permuted", "several-files")
 			case 0:
 				docs = [][]scItem{scShuffle(r, w)}
 				tags = append(tags, "permuted")
@@ -1422,7 +1430,7 @@ func c16Gen(r *rand.Rand, tier string) []Case {
 			}
 			var ds []sx.S
 			for _, d := range docs {
-				ds = append(ds, scDocSx("ok", d))
+				ds = append(ds, scDocSx(mode, d))
 			}
 			out = append(out, scCase(fmt.Sprintf("s%d-a%d", i, j), ds, append(tags, "nontrivial"), scHuman(docs)))
 		}
@@ -1469,9 +1477,46 @@ func c14Gen(r *rand.Rand, tier string) []Case {
 			docs = append(docs, d)
 			tags = append(tags, tag)
 		}
+		// the same definitions as Go values through Root.AddTypes, where they can be built that way
+		apiMode := func(items []scItem, wantFail bool) sx.S {
+			for _, it := range items {
+				if !scAPIExpressible(it) || (!wantFail && (it.K == kSchema || scOpTypes[it.N] != "")) {
+					return "ok"
+				}
+			}
+			if r.Intn(2) == 0 {
+				return "api"
+			}
+			return "ok"
+		}
+		apiTag := func(m sx.S, tag string) string {
+			if m == sx.S("api") {
+				return tag + "-through-AddTypes"
+			}
+			return tag
+		}
 		push("ok", a, "load")
 		for j := 1 + r.Intn(3); j > 0; j-- {
-			switch r.Intn(8) {
+			switch r.Intn(9) {
+			case 8: // new definitions, then one that cannot be added or does not validate
+				fresh := scItem{K: kObject, N: 884, Fields: []scField{{N: 665, T: scT{N: 0}}}}
+				var bad []scItem
+				switch r.Intn(4) {
+				case 0:
+					bad = []scItem{fresh, {K: kEnum, N: 885}}
+				case 1:
+					bad = []scItem{fresh, fresh}
+				case 2:
+					bad = []scItem{fresh, {K: kUnion, N: 886, Members: []int{0}}}
+				default:
+					if it := scPick(r, a, func(it *scItem) bool { return !it.Ext && it.K != kDirective && it.K != kSchema && it.K != kScalar }); it != nil {
+						bad = []scItem{fresh, {K: kObject, N: it.N, Fields: []scField{{N: 666, T: scT{N: 0}}}}}
+					}
+				}
+				if bad != nil {
+					m := apiMode(bad, true)
+					push(m, bad, apiTag(m, "fail:after-new-definitions"))
+				}
 			case 0: // a violation after valid content
 				for try := 0; try < 10; try++ {
 					if mut, name := scMutate(r, b, r.Intn(scNumMuts())); mut != nil {
@@ -1506,7 +1551,8 @@ func c14Gen(r *rand.Rand, tier string) []Case {
 				if it := scPick(r, a, func(it *scItem) bool { return it.K == kObject }); it != nil {
 					s := scItem{K: kSchema, Fields: []scField{{N: 1, T: scT{N: it.N}}}}
 					bad := []scItem{s, {K: kObject, N: 881, Fields: []scField{{N: 662, T: scT{N: 941}}}}}
-					push("ok", bad, "fail:after-schema-block")
+					m := apiMode(bad, true)
+					push(m, bad, apiTag(m, "fail:after-schema-block"))
 				}
 			case 6: // valid extensions of accepted types, then an extension with the wrong keyword
 				var bad []scItem
@@ -1550,7 +1596,8 @@ func c14Gen(r *rand.Rand, tier string) []Case {
 				}
 				if !have && !hasSchema {
 					bad := []scItem{{K: kObject, N: op, Fields: []scField{{N: 664, T: scT{N: 0}}}}, {K: kEnum, N: 883}}
-					push("ok", bad, "fail:new-operation-type-then-validation-error")
+					m := apiMode(bad, true)
+					push(m, bad, apiTag(m, "fail:new-operation-type-then-validation-error"))
 				}
 			case 5: // an enum/union/input extension, then a failure
 				if it := scPick(r, a, func(it *scItem) bool { return it.K == kEnum || it.K == kUnion || it.K == kInput }); it != nil {
@@ -1578,7 +1625,8 @@ func c14Gen(r *rand.Rand, tier string) []Case {
 			}
 		}
 		if len(b) > 0 {
-			push("ok", b, "load")
+			m := apiMode(b, false)
+			push(m, b, apiTag(m, "load"))
 		}
 		// what a refused load tried to add to an accepted type can be added by a later valid load
 		{
